@@ -414,6 +414,13 @@ class Recorder(object):
     def after_flush(self, session, ctx):
         if self.cur is None:
             return
+        self.env._suspend_fault = True      # statements issued by the recorder itself are not fault points
+        try:
+            self._after_flush(session, ctx)
+        finally:
+            self.env._suspend_fault = False
+
+    def _after_flush(self, session, ctx):
         for target, ev in self.cur['_pending']:
             ci = ev['cls']
             vals = []
@@ -437,6 +444,13 @@ class Recorder(object):
 
     # -- snapshots
     def snapshot(self):
+        self.env._suspend_fault = True
+        try:
+            return self._snapshot()
+        finally:
+            self.env._suspend_fault = False
+
+    def _snapshot(self):
         sa = self.sa
         conn = self.session.connection()
         env = self.env
@@ -525,11 +539,32 @@ def final_live(env, session):
     return out
 
 
-def run_program(env, cfg, prog, record=True, plain=False):
-    """Execute prog on the real code. Returns dict(trace, snaps, outcomes)."""
+class InjectedFault(Exception):
+    pass
+
+
+def run_program(env, cfg, prog, record=True, plain=False, fault=None):
+    """Execute prog on the real code. Returns dict(trace, snaps, outcomes).
+    fault = dict(first=i, last=j, n=k): while the ops i..j run, the k-th database statement raises;
+    the application then rolls back and skips the rest of ops i..j."""
     import sqlalchemy as sa
     s = env.session()
     rec = Recorder(env, cfg, s) if record else None
+    env._suspend_fault = False
+    fstate = dict(armed=False, count=0, fired=False, statements=0)
+
+    def _fault_listener(conn, cursor, statement, parameters, context, executemany):
+        if not fstate['armed'] or getattr(env, '_suspend_fault', False):
+            return
+        fstate['statements'] += 1
+        if fault is not None and fault.get('n') is not None and not fstate['fired']:
+            if fstate['count'] == fault['n']:
+                fstate['fired'] = True
+                raise InjectedFault('injected failure at statement %d: %s' % (fault['n'], statement[:60]))
+            fstate['count'] += 1
+    if fault is not None:
+        sa.event.listen(env.engine, 'before_cursor_execute', _fault_listener)
+    sp_handles = []
     refs = {}
     outcomes = []
     kept_activities = []
@@ -556,9 +591,21 @@ def run_program(env, cfg, prog, record=True, plain=False):
             rec.trace.append(dict(ev=ev))
             rec.snaps.append(rec.snapshot())
 
+    skip_until = -1
+    fault_info = dict(reported=False, before=None, after_rb=None, statements=0)
     try:
-        for op in prog:
+        for opi, op in enumerate(prog):
             kind = op[0]
+            if opi <= skip_until:
+                outcomes.append('skipped-after-fault')
+                continue
+            if fault is not None:
+                if opi == fault['first']:
+                    fstate['armed'] = True
+                    if rec:
+                        fault_info['before'] = rec.snapshot()
+                if opi > fault['last']:
+                    fstate['armed'] = False
             try:
                 if kind == 'add':
                     _, c, key, vals = op
@@ -653,6 +700,22 @@ def run_program(env, cfg, prog, record=True, plain=False):
                         a.target = t
                     s.add(a)
                     kept_activities.append(a)
+                elif kind == 'sp_begin':
+                    sp_handles.append(s.begin_nested())
+                    mark('spbegin')
+                elif kind == 'sp_rollback':
+                    if not sp_handles:
+                        outcomes.append('skip')
+                        continue
+                    sp_handles.pop().rollback()
+                    refs.clear()
+                    mark('sprollback')
+                elif kind == 'sp_release':
+                    if not sp_handles:
+                        outcomes.append('skip')
+                        continue
+                    sp_handles.pop().commit()
+                    mark('sprelease')
                 elif kind == 'flush':
                     s.flush()
                 elif kind == 'query':
@@ -678,7 +741,19 @@ def run_program(env, cfg, prog, record=True, plain=False):
                     rec.cur = None
                 s.rollback()
                 refs.clear()
+                sp_handles[:] = []
                 mark('rollback')
+                if isinstance(e, InjectedFault) or 'InjectedFault' in repr(e) or (fault is not None and fstate['fired'] and not fault_info['reported']):
+                    fault_info['reported'] = True
+                    fstate['armed'] = False
+                    if rec:
+                        fault_info['after_rb'] = rec.snaps[-1]
+                    skip_until = fault['last']
+            if kind in ('commit', 'rollback'):
+                sp_handles[:] = []
+            if fault is not None and opi >= fault['last']:
+                fstate['armed'] = False
+        fstate['armed'] = False
         fl = None
         try:
             s.rollback()
@@ -686,13 +761,20 @@ def run_program(env, cfg, prog, record=True, plain=False):
             s.rollback()
         except Exception as e:
             fl = 'error: %s' % type(e).__name__
+        fault_info['statements'] = fstate['statements']
+        fault_info['fired'] = fstate['fired']
         return dict(trace=rec.trace if rec else [], snaps=rec.snaps if rec else [], outcomes=outcomes,
-                    ccfg=reflect_cfg(env, cfg) if not plain else [], exc=None, final_live=fl)
+                    ccfg=reflect_cfg(env, cfg) if not plain else [], exc=None, final_live=fl, fault=fault_info)
     except Exception as e:               # harness-level failure
         import traceback
         return dict(trace=[], snaps=[], outcomes=outcomes, ccfg=[], final_live=None, exc='%s: %s\n%s' % (
             type(e).__name__, str(e)[:200], traceback.format_exc()[-800:]))
     finally:
+        if fault is not None:
+            try:
+                sa.event.remove(env.engine, 'before_cursor_execute', _fault_listener)
+            except Exception:
+                pass
         if rec:
             rec.remove()
         try:
@@ -782,7 +864,19 @@ def g_event(ev):
         return '(Flush %s %s %s)' % (glist(ev['objs'], g_obj), glist(ev['ents'], g_ent), glist(ev['assoc'], g_assoc))
     if ev['ev'] == 'rawassoc':
         return '(RawAssoc %s)' % g_assoc(ev)
+    if ev['ev'] in ('spbegin', 'sprollback', 'sprelease'):
+        raise ValueError('savepoint events need g_mevent')
     return {'commit': 'Commit', 'rollback': 'Rollback', 'manualtx': 'ManualTx'}[ev['ev']]
+
+
+def g_mevent(ev):
+    if ev['ev'] == 'spbegin':
+        return 'SpBegin'
+    if ev['ev'] == 'sprollback':
+        return 'SpRollback'
+    if ev['ev'] == 'sprelease':
+        return 'SpRelease'
+    return '(MCore %s)' % g_event(ev)
 
 
 def g_snap(sn, ccfg):
